@@ -51,12 +51,17 @@ class StubSMT:
         return [[0.0]]
 
 
-def make(wrapper, step, trained0, hook):
+WEIRD = (1.5, float("inf"), 2.5, float("nan"), float("-inf"), 1.7976931348623157e308, 0.0, -0.0, 5e-324)
+
+
+def make(wrapper, step, trained0, hook, weird=False):
     from .c_support import make_problem
     state = {"ctx": None, "returned": [], "k": 0}
 
     def f(v):
         r = [v[0] * v[0] + 1.0]
+        if weird:        # objective values a failed or degenerate computation produces: still "the true objective value"
+            r = [WEIRD[len(state["returned"]) % len(WEIRD)]]
         state["returned"].append(r)
         return r
 
@@ -94,6 +99,9 @@ def body_factory(wrapper, step, trained0, hook, depth, col):
     (as artap's own surrogate example does after its DoE phase)."""
     schedule = step if isinstance(step, tuple) and step[0] == "switch" else None
     preload = step[1] if isinstance(step, tuple) and step[0] == "preload" else 0
+    weird = isinstance(step, tuple) and step[0] == "weird"
+    if weird:
+        step = step[1]
     if preload:
         step = step[2]
     if schedule is not None:
@@ -102,7 +110,7 @@ def body_factory(wrapper, step, trained0, hook, depth, col):
     def body(ctx):
         step = schedule[2] if schedule is not None else body.step
         from artap.individual import Individual
-        problem, s, stub, st = make(wrapper, step, trained0, hook)
+        problem, s, stub, st = make(wrapper, step, trained0, hook, weird)
         st["ctx"] = ctx
         out = []
         # reference automaton
@@ -167,7 +175,7 @@ def body_factory(wrapper, step, trained0, hook, depth, col):
                 out.append(("C19:%s:counters-sum" % wrapper, "counters add up to %d after %d requests; %s" % (s.eval_counter + s.predict_counter, k + 1, desc)))
             if wrapper != "eval":
                 xd = [v[0] for v in s.x_data]
-                if xd != r_data or len(s.y_data) != len(r_data) or any(y is not None and list(y) != [v * v + 1.0] for y, v in list(zip(s.y_data, r_data))[preload:]):
+                if xd != r_data or len(s.y_data) != len(r_data) or any(y is not None and repr(list(y)) != repr(list(r)) for y, r in zip(list(s.y_data)[preload:], st["returned"])):
                     out.append(("C19:%s:training-set" % wrapper, "x_data %r y_data %r, reference xs %r; %s" % (s.x_data, s.y_data, r_data, desc)))
                 if len(stub.fits) != r_fits:
                     kind = "never" if step == -1 else "step"
@@ -185,7 +193,7 @@ def body_factory(wrapper, step, trained0, hook, depth, col):
                 break
         ctx.digest = (tuple(trace), s.eval_counter, s.predict_counter)
         if interesting:
-            col.nontrivial((wrapper, schedule or (preload, step), trained0, hook, tuple(ctx.choices)))
+            col.nontrivial((wrapper, schedule or (preload, step, weird), trained0, hook, tuple(ctx.choices)))
         return out
     body.step = step
     return body
@@ -259,6 +267,11 @@ def run(tier, seed):
         for sched in (("switch", 3, -1, 2), ("switch", 5, -1, 4), ("switch", 4, 3, 2), ("switch", 2, 2, 3), ("switch", 3, 2, -1)):
             for hook in (False, True):
                 shards.append((wrapper, sched, False, hook, depth))
+    for wrapper in ("scikit", "smt"):          # objective values inf / nan / extreme: returned unchanged and recorded like any other
+        for step in (-1, 1, 2, 3):
+            shards.append((wrapper, ("weird", step), False, False, 20))
+            shards.append((wrapper, ("weird", step), True, True, depth))
+    shards.append(("eval", ("weird", -1), True, False, 12))
     shards.append(("two", 12))
     for wrapper in ("scikit", "smt"):          # long request sequences (no hook: one execution each)
         for step in (1, 2, 3, 4, 5, 7, 10, -1):
